@@ -491,29 +491,40 @@ impl Azks {
             None
         };
 
-        // handle the right child in the current task
-        if !right_azks_element_set.is_empty() {
-            let right_child_label = current_node.get_child_label(Direction::Right);
-            let (mut right_node, right_is_new, right_num_inserted) =
-                Azks::recursive_batch_insert_nodes::<TC, _>(
-                    storage,
-                    right_child_label,
-                    right_azks_element_set,
-                    epoch,
-                    insert_mode,
-                    child_parallel_levels,
-                )
-                .await?;
+        // handle the right child in the current task. A failure is held back until the task
+        // spawned for the left child (if any) has been joined: a task which is still running
+        // would otherwise go on writing to storage after the caller has given up and rolled
+        // back its transaction.
+        let right_result: Result<(), AkdError> = async {
+            if !right_azks_element_set.is_empty() {
+                let right_child_label = current_node.get_child_label(Direction::Right);
+                let (mut right_node, right_is_new, right_num_inserted) =
+                    Azks::recursive_batch_insert_nodes::<TC, _>(
+                        storage,
+                        right_child_label,
+                        right_azks_element_set,
+                        epoch,
+                        insert_mode,
+                        child_parallel_levels,
+                    )
+                    .await?;
 
-            current_node.set_child(&mut right_node)?;
-            right_node.write_to_storage(storage, right_is_new).await?;
-            num_inserted += right_num_inserted;
+                current_node.set_child(&mut right_node)?;
+                right_node.write_to_storage(storage, right_is_new).await?;
+                num_inserted += right_num_inserted;
+            }
+            Ok(())
         }
+        .await;
 
         // join on the handle for the left child, if present
-        if let Some(handle) = maybe_handle {
-            let (mut left_node, left_is_new, left_num_inserted) = handle
-                .await
+        let left_result = match maybe_handle {
+            Some(handle) => Some(handle.await),
+            None => None,
+        };
+        right_result?;
+        if let Some(left_result) = left_result {
+            let (mut left_node, left_is_new, left_num_inserted) = left_result
                 .map_err(|e| AkdError::Parallelism(ParallelismError::JoinErr(e.to_string())))??;
             current_node.set_child(&mut left_node)?;
             left_node.write_to_storage(storage, left_is_new).await?;
